@@ -24,7 +24,9 @@ CONFIG = {
                 lean_targets=["PulserModel", "Properties.C09"]),
     "C13": dict(wants=["any", "eom", "dmm", "local", "xy"], profiles=["mix", "eom", "target", "dmm"],
                 quick=900, thorough=15000, wrap_share=0.1, p_invalid=0.3,
-                lean_targets=["PulserModel", "Properties.C13"]),
+                lean_targets=["PulserModel", "Properties.C13"],
+                tables="tables_c13", table_targets=["PulserModel.Generated.Decorators", "Properties.C13Table"],
+                table_theorems=["Pulser.C13Table.measured_blocks_timeline_table"]),
     "C03": dict(wants=["any", "eom", "dmm", "local"], profiles=["mix", "eom", "target", "dmm", "phase"],
                 quick=1000, thorough=20000, wrap_share=0.2,
                 lean_targets=["PulserModel", "Properties.C03"]),
@@ -64,13 +66,33 @@ class SeqProperty:
 
         return [monitors.MONITORS[self.prop]()]
 
+    def table_obligations(self):
+        """Translator tie: regenerate the tables of this property from the live source and
+        re-check the obligations stated over them. Returns None, or a description of the
+        obligation that no longer checks (a *broken tie*, not yet a violation)."""
+        if "tables" not in self.cfg:
+            return None
+        import importlib
+
+        mod = importlib.import_module(self.cfg["tables"])
+        try:
+            mod.regenerate()
+        except Exception as e:  # noqa: BLE001
+            return f"table extraction failed ({type(e).__name__}: {e}) in harness/{self.cfg['tables']}.py"
+        ok, out = common.lake_build(self.cfg["table_targets"])
+        if ok:
+            return None
+        tail = "\n".join(l for l in out.splitlines() if "error" in l.lower())[:600]
+        return (f"obligation over the regenerated table no longer checks: {self.cfg['table_theorems']} "
+                f"(lake build {' '.join(self.cfg['table_targets'])}): {tail}")
+
     def lean_obligations(self):
         """Build the model, the proofs of this property and the driver; audit axioms."""
         ok, out = common.lake_build(self.cfg["lean_targets"] + ["pmdriver"])
         if not ok:
             raise InfraError("lake build failed:\n" + out[-3000:])
         thms = common.property_theorems(self.prop)
-        bad_tokens = common.lean_forbidden_tokens()
+        bad_tokens = common.lean_forbidden_tokens([f"Properties.{self.prop}", "Driver.Main"])
         if bad_tokens:
             raise InfraError("forbidden tokens in Lean sources: " + "; ".join(bad_tokens[:5]))
         axioms = common.audit_axioms(f"Properties.{self.prop}", thms) if thms else {}
@@ -98,7 +120,18 @@ class SeqProperty:
     def check(self, tier: str, seed: int) -> int:
         timer = Timer()
         prop = self.prop
+        broken_tie = self.table_obligations()
         thms, axioms, discharged = self.lean_obligations()
+        if "table_theorems" in self.cfg:
+            thms = thms + self.cfg["table_theorems"]
+            if broken_tie is None:
+                ax = common.audit_axioms(self.cfg["table_targets"][-1], self.cfg["table_theorems"])
+                for t in self.cfg["table_theorems"]:
+                    a = ax.get(t.split("Pulser.", 1)[-1], ax.get(t))
+                    if a is None or not set(a) <= common.ALLOWED_AXIOMS:
+                        raise InfraError(f"axiom audit failed for {t}: {a}")
+                    axioms[t] = a
+                    discharged += 1
         rng = random.Random(f"{prop}-{seed}")
         drv = Driver()
         n_hist = self.cfg[tier]
@@ -170,6 +203,12 @@ class SeqProperty:
             handle(spec, res, exact, "generated")
             if violations and tier == "quick":
                 break
+        # 3a. translator tie broken (an obligation over a regenerated table fails): the
+        # histories above were the search; without a failing input it is still reported
+        if broken_tie and not violations:
+            violations.append(dict(property=prop, kind="table", broken=broken_tie,
+                                   theorems=self.cfg.get("table_theorems", []), device=None, ops=[],
+                                   no_failing_input_found=True))
         # 3. tie broken without a failing input: search harder, then report
         if owned_divergences and not violations:
             d0 = owned_divergences[0]
